@@ -407,15 +407,46 @@ func ruleC04R5(r *Run) {
 			resuming, _ := p.enumConst("/iscp", "streamStatusResuming")
 			// the select waiting for finalAckFlushed
 			var waitSel ssa.Instruction
-			allInstrs(closeFn, func(ins ssa.Instruction) {
-				if sel, ok := ins.(*ssa.Select); ok && sel.Blocking {
-					for _, st := range sel.States {
-						if st.Dir == types.RecvOnly && hasLeaf(p.Leaves(st.Chan, provOpts{}), "field:/iscp.Downstream.finalAckFlushed") {
+			selectOn := func(fn *ssa.Function) ssa.Instruction {
+				var found ssa.Instruction
+				allInstrs(fn, func(ins ssa.Instruction) {
+					if sel, ok := ins.(*ssa.Select); ok && sel.Blocking {
+						for _, st := range sel.States {
+							if st.Dir == types.RecvOnly && hasLeaf(p.Leaves(st.Chan, provOpts{}), "field:/iscp.Downstream.finalAckFlushed") {
+								found = ins
+							}
+						}
+					}
+				})
+				return found
+			}
+			waitSel = selectOn(closeFn)
+			if waitSel == nil {
+				// the wait may live in a helper of the stream that performs it on every path
+				allInstrs(closeFn, func(ins ssa.Instruction) {
+					call, ok := ins.(*ssa.Call)
+					if !ok || waitSel != nil {
+						return
+					}
+					cf := call.Call.StaticCallee()
+					if cf == nil || !p.Analysed(cf) || cf.Blocks == nil {
+						return
+					}
+					if sel := selectOn(cf); sel != nil {
+						all := true
+						for _, b := range cf.Blocks {
+							if _, isRet := b.Instrs[len(b.Instrs)-1].(*ssa.Return); isRet && b != cf.Recover {
+								if !(sel.Block() == b || sel.Block().Dominates(b)) {
+									all = false
+								}
+							}
+						}
+						if all {
 							waitSel = ins
 						}
 					}
-				}
-			})
+				})
+			}
 			ok := false
 			detail := "no blocking select on finalAckFlushed in the close path"
 			if waitSel != nil {
